@@ -617,7 +617,12 @@ Note2: that Reed-Solomon can correct up to 2*resilience_rate erasures (eg, null 
                 ptee.write(fserrmsg)
 
                 # Convert filesize intra-field into an int
-                filesize = int(filesize)
+                try:
+                    filesize = int(filesize)
+                except ValueError:
+                    ptee.write("Error: ecc entry corrupted on filesize field at offset %i (could not be corrected), skipping this entry." % entry_pos[0])
+                    files_skipped += 1
+                    continue
 
                 # Update entry_p
                 entry_p["filesize"] = filesize # need to update entry_p because various funcs will directly access filesize this way...
